@@ -34,7 +34,7 @@ MANIFEST = {
 ASSUMPTIONS = ["bounded universe in the history enumeration: 5 packages, 3 blockers, 2 choice points, histories of <= 4 operations",
                "states are compared as multisets (a reverted remove re-appends at the end of a slot list)",
                "RefCountingSet and dict behave as the ghost state of C17.operations says (their code is not under contract here)",
-               "PigeonHoledSlots behaves as the ghost slot table of C17.operations says: proved for remove_slotting, remove_limiter, check_limiters (own contracts, all list lengths, entries as sets -- order and multiplicity of what stays not covered) and get_conflicting_slot (first entry in the slot, loop invariant); fill_slotting, add_limiter and find_atom_matches stay assumed, compared with the real class on every sequence of <= 4 calls (bounded)",
+               "PigeonHoledSlots behaves as the ghost slot table of C17.operations says: proved for remove_slotting, remove_limiter, check_limiters (own contracts, all list lengths, entries as sets -- order and multiplicity of what stays not covered) , find_atom_matches and get_conflicting_slot (first entry in the slot, loop invariant); fill_slotting and add_limiter stay assumed, compared with the real class on every sequence of <= 4 calls (bounded)",
                "the induction over the plan (each revert meets the state its apply left, because newer operations are reverted first) is argued, not machine-checked"]
 
 
@@ -816,6 +816,47 @@ def t_check_limiters(ex):
         ex.oblige(f"{P}.ensures.no_limiters_no_conflicts", (isinstance(r, (list, tuple)) and len(r) == 0) or (isinstance(r, SSeq) and ex.must(r.length() == 0)))
 
 
+def t_find_atom_matches(ex):
+    """PigeonHoledSlots.find_atom_matches(atom[, key]) -- what add_limiter reports as conflicts -- is exactly the entries of the key (the atom's
+    own key when none is given) that the atom matches, none when the key has no entries; the tables stay as they are (entries as a set)."""
+    from pkgcore.resolver.pigeonholes import PigeonHoledSlots
+    from pyvc.sym import Kind, KSeq, SSeq
+    P = "C17.PigeonHoledSlots.find_atom_matches"
+    lsort, psort = z3.DeclareSort("Limiter3"), z3.DeclareSort("SlottedPkg3")
+    matches = theory.ufun("limiter3_matches", lsort, psort, z3.BoolSort())
+    KL = Kind("Limiter3", lsort, lambda t: SRef(t, KL), lambda v: v.t if isinstance(v, SRef) and v.kind is KL else None)
+    KP = Kind("SlottedPkg3", psort, lambda t: SRef(t, KP), lambda v: v.t if isinstance(v, SRef) and v.kind is KP else None)
+    atom_ = KL.fresh("atom")
+    slots = KSeq(KP, "list").fresh("slots")
+    key_present, key_given = bool(ex.choose(2)), bool(ex.choose(2))
+    the_key = "cat/given" if key_given else "cat/foo"
+    table = {"cat/other": ("x",)}
+    if key_present:
+        table[the_key] = slots
+    snapshot = dict(table)
+    me = SObj(PigeonHoledSlots, {"slot_dict": table, "limiters": {}})
+    it = Interp(ex, label=P)
+    it.ref_attrs = {("Limiter3", "key"): lambda it_, o: "cat/foo",
+                    ("Limiter3", "match"): lambda it_, o: Model(lambda it__, p: SBool(matches(o.t, p.t)), "restriction.match", pure=True)}
+    out = call(it, it.target("src/pkgcore/resolver/pigeonholes.py", "PigeonHoledSlots.find_atom_matches"), me, atom_, **({"key": "cat/given"} if key_given else {}))
+    ex.oblige(f"{P}.raises.nothing", not out.raised, kind="exceptional-postcondition")
+    if out.raised:
+        return
+    ex.cover("returns")
+    ex.oblige(f"{P}.frame.tables_untouched", table == snapshot and all(table[k] is snapshot[k] for k in table))
+    r = out.value
+    r = r.val if hasattr(r, "val") and isinstance(getattr(r, "val", None), SSeq) else r
+    y = z3.Const("y!c17fm", psort)
+    if key_present:
+        ok = isinstance(r, SSeq)
+        ex.oblige(f"{P}.ensures.a_list_of_entries", ok)
+        if ok:
+            ex.oblige(f"{P}.ensures.exactly_the_entries_of_the_key_that_the_atom_matches",
+                      SBool(z3.ForAll([y], z3.IsMember(y, r.as_set().t) == z3.And(z3.IsMember(y, slots.as_set().t), matches(atom_.t, y)))))
+    else:
+        ex.oblige(f"{P}.ensures.no_entries_no_matches", (isinstance(r, (list, tuple)) and len(r) == 0) or (isinstance(r, SSeq) and ex.must(r.length() == 0)))
+
+
 def t_get_conflicting_slot(ex):
     """PigeonHoledSlots.get_conflicting_slot(pkg) -- the occupant replace_op displaces -- is the first entry of pkg's key that sits in pkg's
     slot, None exactly when there is none; for slot lists of any length (loop invariant: nothing scanned so far is in the slot)."""
@@ -865,6 +906,7 @@ def tasks():
             Task("C17.remove_slotting", t_remove_slotting, [("src/pkgcore/resolver/pigeonholes.py", "PigeonHoledSlots.remove_slotting")]),
             Task("C17.remove_limiter", t_remove_limiter, [("src/pkgcore/resolver/pigeonholes.py", "PigeonHoledSlots.remove_limiter")]),
             Task("C17.check_limiters", t_check_limiters, [("src/pkgcore/resolver/pigeonholes.py", "PigeonHoledSlots.check_limiters")]),
+            Task("C17.find_atom_matches", t_find_atom_matches, [("src/pkgcore/resolver/pigeonholes.py", "PigeonHoledSlots.find_atom_matches")]),
             Task("C17.get_conflicting_slot", t_get_conflicting_slot, [("src/pkgcore/resolver/pigeonholes.py", "PigeonHoledSlots.get_conflicting_slot")]),
             Task("C17.operations", t_ops, fns[1:]),
             Task("C17.backtrack", t_backtrack, fns[:1], bounded={"operations in the plan": 4, "note": "every position, every failing revert"})]
